@@ -37,6 +37,9 @@ claim("C05", "C (csmt + ffchain)", "SMT over extracted constraint systems; forei
 claim("C06", "C (csmt)", "SMT over extracted constraint systems with monomial normalisation of field products",
       "Narrow, gate level: the native Edwards chip's add/double/negate/select/equality/exposure constraints imply the textbook denominator-cleared equations for all assignments. Not the group law, not scalar multiplication, not foreign curves.",
       "Trusted: as C04. Outside: listed in evidence (subgroup membership, mul/msm, hash-to-curve, foreign ECC gates).", "DESIGN 3 C06")
+claim("C08", "C (csmt)", "SMT over the extracted exposure circuits (all assignments) + concrete comparison of the off-circuit encoder with the honest instance",
+      "Partial: for bit/byte/native values, emulated field elements and Jubjub points, the cells the chip's own exposure puts on the instance column determine the value and satisfy the type's range invariant (all assignments); the off-circuit encoder equals the honest instance at boundary and seeded values (concrete).",
+      "Outside: vk identities/accumulators, foreign points, BigUint, Jubjub scalars; the off-circuit encoders for all values.", "DESIGN 3 C08")
 claim("C10", "M (mir2smt) + K (Kani)", "nightly MIR of the field kernels translated to SMT (Int, mod 2^64 semantics) + ground constant obligations; Kani/CBMC harnesses over all byte strings with blst as recording oracles",
       "Pure-Rust Montgomery fields (Jubjub Fr, Curve25519 Fp, bn256, BLS const kernels): add/sub/neg/double/mul/square/reduce for all inputs; decoders canonical over all byte strings; every published constant satisfies its defining equation.",
       "Trusted: MIR translator (validated against native runs every run), Kani/CBMC, blst itself (oracle). Outside: blst arithmetic, pow loops, Bernstein-Yang inversion.", "DESIGN 3 C10, 8")
@@ -61,7 +64,7 @@ claim("C19", "A (auto-smt) + C (csmt)", "z3 regular-language theory vs the dumpe
 
 NA = {
     "C07": "not built yet: hash gadgets (planned narrow claim on sub-gadgets, DESIGN 3 C07)",
-    "C08": "not built as a separate check yet: exposure of native/emulated/point types is covered inside C04/C05/C06 obligations (pi / add_pi); counter logic and off-circuit encoders pending",
+    "C08": "placeholder",
     "C09": "not applicable to solver-based checking: a non-interference property of the whole synthesis path whose witness generation concretises at every step (DESIGN 3 C09); assumed and spot-checked by engine C",
     "C13": "not applicable: the pairing is entirely blst C/assembly behind FFI; no Rust arithmetic to encode (DESIGN 3 C13)",
     "C16": "Kani part in progress (builder K2); will be claimed when every obligation is decided",
